@@ -198,8 +198,14 @@ class Env:
                           else tb.iter_cols(kw["min_col"], kw["max_col"], kw["min_row"], kw["max_row"]))
                 else:
                     it = tb.iter_rows(**kw) if k == "iterrows" else tb.iter_cols(**kw)
+                # every third probe asks for the values instead of the cells
+                vo = self._iter_n % 3 == 0
+                if vo:
+                    it = (tb.iter_rows(kw["min_row"], kw["max_row"], kw["min_col"], kw["max_col"], True) if k == "iterrows" and self._iter_n % 2 == 0
+                          else tb.iter_cols(kw["min_col"], kw["max_col"], kw["min_row"], kw["max_row"], True) if self._iter_n % 2 == 0
+                          else tb.iter_rows(values_only=True, **kw) if k == "iterrows" else tb.iter_cols(values_only=True, **kw))
                 try:
-                    res = [[p.tok(c.value) for c in line] for line in it]     # consumed fully
+                    res = [[p.tok(c if vo else c.value) for c in line] for line in it]     # consumed fully
                 except IndexError:
                     res = [["IndexError"]]
             elif k == "cell":
